@@ -1037,8 +1037,19 @@ func (v *Verifier) postObligations(fr *Frame, pkg *ssa.Package, fn *ssa.Function
 		}
 		g := pe.evalBool(e.E)
 		fr.oblige(fin, "post:"+e.Name, g, e.E.Src)
+		if coverAudit && g.Op == OImp && !fin.pc.IsFalse() {
+			// audit (GCV_COVER=1): the guard of a clause "P ==> Q" must be reachable on some returning path; a guard the
+			// solver refutes makes the clause vacuous
+			probe := &Obligation{Name: fr.oblName("cover:" + e.Name), Kind: "vacuity", Func: fr.fname, Part: fr.part,
+				Hyps: append(append([]*Term(nil), v.initFacts...), fin.pc), Goal: v.F.Not(g.Args[0]), Abstract: v.abstractProducts, MustFail: true, Spec: "the guard of " + e.E.Src + " is reachable", Preamble: v.preamble}
+			v.emit(probe)
+		}
 	}
 }
+
+// coverAudit: emit reachability probes for the guards of guarded postconditions (an audit of the contracts, not
+// part of the registered checks: GCV_COVER=1)
+var coverAudit = os.Getenv("GCV_COVER") != ""
 
 // ---------- reporting ----------
 
